@@ -1,4 +1,4 @@
-import Eru.Misc.Docker
+import Eru.Misc.ProofsF64
 /-
 C31 — Engine settings faithfully enforce allocated resources.
 Model: Eru/Misc/Docker.lean (makeResourceSetting, create and update paths of the docker engine,
@@ -10,7 +10,7 @@ open Eru.Misc Eru.Misc.Docker
 /-- A valid allocation is refused only for a memory limit below docker's 4 MiB minimum. -/
 theorem create_applies (p : Params) (h : Valid p) :
     (∃ r, create p = .ok r) ∨ (0 < p.memory ∧ p.memory < minMemory ∧ create p = .errInvalidMemory) := by
-  obtain ⟨_, _, hm, _⟩ := h
+  obtain ⟨_, _, hm, _, _⟩ := h
   have hmin : minMemory = 4194304 := by decide
   unfold create memoryRejected
   rw [hmin]
@@ -81,7 +81,7 @@ theorem unlimited_cpu (p : Params) (ncpu : Nat) (hu : p.cores = []) (hc : p.cpu 
     split at h
     · cases h
     · injection h with h; subst h
-      simp [makeResourceSetting, hu, hc, defaultCPUShare]; decide
+      simp [makeResourceSetting, hu, hc, defaultCPUShare] <;> decide
   · intro r h
     unfold update at h
     split at h
@@ -102,10 +102,136 @@ theorem memory_cap (p : Params) (ncpu : Nat) :
     · cases h
     · injection h with h; subst h; simp [makeResourceSetting]
 
+
+/-! ### accuracy of the float arithmetic -/
+
+/-- **Unbound workload: quota/period = cpu limit to the nearest unit** (after the `math.Round` fix).
+The hypothesis `2^-1022 ≤ cpu·100000` only excludes subnormal products. -/
+theorem quota_nearest (cpu : Rat) (hc : 0 < cpu) (hn : F64.pow2 (-1022) ≤ cpu * 100000) :
+    QuotaNear (quotaOf cpu) cpu := quotaOf_near cpu hc hn
+
+/-- on the decimal grid the quota is exact: limit·100000 within 1/4 of the integer `k` ⇒ quota = k
+(0.29 ⇒ 29000, whatever the last bit of the double) -/
+theorem quota_exact_on_grid (cpu : Rat) (k : Int) (hc : 0 < cpu) (hn : F64.pow2 (-1022) ≤ cpu * 100000)
+    (hk : |cpu * 100000 - (k : Rat)| ≤ 1 / 4) (hb : cpu * 100000 ≤ 2 ^ 50) : quotaOf cpu = k :=
+  quotaOf_exact cpu k hc hn hk hb
+
+/-- **Bound workload: shares proportional to the fractional core** -/
+theorem shares_proportional (cpu : Rat) (hf : 0 < F64.frac cpu) (hn : F64.pow2 (-1022) ≤ 1024 * F64.frac cpu) :
+    SharesNear (sharesOfFrac cpu) cpu := sharesOfFrac_near cpu hf hn
+
+theorem sameSet_self (l : List String) : sameSet l l = true := by
+  unfold sameSet
+  simp
+
+/-- **The create path meets the whole specification** the oracle evaluates on the real engine:
+for every valid engine-params record (float products in the normal range) no clause is violated. -/
+theorem create_meets_spec (p : Params) (ncpu : Nat) (r : Res) (hv : Valid p)
+    (hq : p.cores = [] → 0 < p.cpu → F64.pow2 (-1022) ≤ p.cpu * 100000)
+    (hs : p.cores ≠ [] → 0 < F64.frac p.cpu → F64.pow2 (-1022) ≤ 1024 * F64.frac p.cpu)
+    (h : create p = .ok r) : violations .create p ncpu r = [] := by
+  obtain ⟨hc0, hcb, hm0, _, _⟩ := hv
+  by_cases hb : p.cores = []
+  · -- unbound
+    by_cases hc : 0 < p.cpu
+    · obtain ⟨h1, h2, h3, h4⟩ := (unbound_quota p ncpu hb hc).1 r h
+      obtain ⟨h5, h6⟩ := (memory_cap p ncpu).1 r h
+      have hqn := quota_nearest p.cpu hc (hq hb hc)
+      have hper : r.period = cpuPeriodBase := by
+        unfold create at h; split at h
+        · cases h
+        · injection h with h; subst h; rfl
+      rw [← h1] at hqn
+      simp [violations, hb, hc, h2, h3, h4, h5, h6, hqn, hper, sameSet]
+    · have hc' : p.cpu = 0 := le_antisymm (not_lt.mp hc) hc0
+      obtain ⟨h1, h2⟩ := (unlimited_cpu p ncpu hb hc').1 r h
+      obtain ⟨h5, h6⟩ := (memory_cap p ncpu).1 r h
+      have hrest : r.cpuset = [] ∧ r.mems = "" ∧ r.period = cpuPeriodBase := by
+        unfold create at h; split at h
+        · cases h
+        · injection h with h; subst h; simp [makeResourceSetting, hb]
+      simp [violations, hb, hc', h1, h2, h5, h6, hrest.1, hrest.2.1, hrest.2.2, sameSet]
+  · -- bound
+    obtain ⟨h1, h2, h3, h4, h5, h6, h7⟩ := bound_create p r hb h
+    have hne : p.cores.isEmpty = false := by cases hcs : p.cores <;> simp_all
+    have hsn : SharesNear r.shares p.cpu := by
+      rw [h7]
+      by_cases hf : 0 < F64.frac p.cpu
+      · simp only [gt_iff_lt, hf, if_true]; exact shares_proportional p.cpu hf (hs hb hf)
+      · simp [SharesNear, hf]
+    simp [violations, hne, h1, h2, h3, h4, h5, h6, hsn, sameSet_self, cpuPeriodBase]
+
+
+/-- **The update path meets the whole specification** (bound, remapped and unbound records). -/
+theorem update_meets_spec (p : Params) (ncpu : Nat) (r : Res) (hv : Valid p) (hn0 : ncpu ≠ 0)
+    (hq : (p.cores = [] ∨ p.remap = true) → 0 < p.cpu → F64.pow2 (-1022) ≤ p.cpu * 100000)
+    (hs : p.cores ≠ [] → 0 < F64.frac p.cpu → F64.pow2 (-1022) ≤ 1024 * F64.frac p.cpu)
+    (h : update p ncpu = .ok r) : violations .update p ncpu r = [] := by
+  obtain ⟨hc0, hcb, hm0, _, hnuma⟩ := hv
+  have hall : (allCores ncpu).isEmpty = false := by
+    cases ncpu with
+    | zero => exact absurd rfl hn0
+    | succ n => simp [allCores, List.range_succ]
+  obtain ⟨hmem1, hmem2⟩ := (memory_cap p ncpu).2 r h
+  have hmemOk : r.memory = (if p.memory = 0 ∧ Op.update = Op.update then maxMemory else p.memory) ∧
+      r.swap = (if p.memory = 0 ∧ Op.update = Op.update then maxMemory else p.memory) := by
+    constructor
+    · rw [hmem2]; simp
+    · rw [← hmem1, hmem2]; simp
+  have hper : r.period = cpuPeriodBase := by
+    unfold update at h; split at h
+    · cases h
+    · injection h with h; subst h; rfl
+  by_cases hb : p.cores = []
+  · by_cases hc : 0 < p.cpu
+    · obtain ⟨h1, h2, h3⟩ := (unbound_quota p ncpu hb hc).2 r h
+      have hqn := quota_nearest p.cpu hc (hq (Or.inl hb) hc)
+      rw [← h1] at hqn
+      have hmems : r.mems = "" := by
+        have hc0' : ¬ p.cpu = 0 := fun e => by rw [e] at hc; exact absurd hc (by decide)
+        unfold update at h; split at h
+        · cases h
+        · injection h with h; subst h
+          simp [makeResourceSetting, hb, hc0', hall, hnuma hb]
+      simp [violations, hb, hc, h2, h3 hn0, hqn, hmems, hmemOk.1, hmemOk.2, hper, sameSet_self]
+    · have hc' : p.cpu = 0 := le_antisymm (not_lt.mp hc) hc0
+      obtain ⟨h1, h2, h3⟩ := (unlimited_cpu p ncpu hb hc').2 r h
+      have hset : r.cpuset = allCores ncpu := by
+        unfold update at h; split at h
+        · cases h
+        · injection h with h; subst h
+          simp [makeResourceSetting, hb, hc', hall]
+      simp [violations, hb, hc', h1, h2, h3, hset, hmemOk.1, hmemOk.2, hper, sameSet_self]
+  · have hne : p.cores.isEmpty = false := by cases hcs : p.cores <;> simp_all
+    have hc : 0 < p.cpu := hcb hb
+    have hc0' : ¬ p.cpu = 0 := fun e => by rw [e] at hc; exact absurd hc (by decide)
+    by_cases hr : p.remap = true
+    · -- remapped onto shared cores: pinned, quota kept, default shares
+      have hqn := quota_nearest p.cpu hc (hq (Or.inr hr) hc)
+      have hres : r.cpuset = p.cores ∧ r.mems = p.numa ∧ r.quota = quotaOf p.cpu ∧ r.shares = 1024 := by
+        unfold update at h; split at h
+        · cases h
+        · injection h with h; subst h
+          simp [makeResourceSetting, hne, hc0', hr, hc]
+      rw [← hres.2.2.1] at hqn
+      simp [violations, hne, hr, hc, hres.1, hres.2.1, hres.2.2.2, hqn, hmemOk.1, hmemOk.2, hper, sameSet_self]
+    · have hr' : p.remap = false := by simpa using hr
+      obtain ⟨h1, h2, h3, _, _, h7⟩ := bound_update p ncpu r hb hc hr' h
+      have hsn : SharesNear r.shares p.cpu := by
+        rw [h7]
+        by_cases hf : 0 < F64.frac p.cpu
+        · simp only [gt_iff_lt, hf, if_true]; exact shares_proportional p.cpu hf (hs hb hf)
+        · simp [SharesNear, hf]
+      simp [violations, hne, hr', h1, h2, h3, hsn, hmemOk.1, hmemOk.2, hper, sameSet_self]
+
 /-- the D22 witness: 0.29 cores (the double nearest to 0.29) gets quota 29000, not 28999 -/
 example : (F64.ofBits 0x3FD28F5C28F5C28F).map quotaOf = some 29000 := by decide +kernel
 
 /-- hypotheses are satisfiable: a bound record with a fractional core -/
 example : Valid { cpu := 3/2, memory := 1073741824, cores := ["0", "3"], numa := "1", remap := false } := by decide +kernel
+
+/-- the normal-range hypothesis of the accuracy theorems holds for ordinary limits (0.29 cores) -/
+example : (F64.ofBits 0x3FD28F5C28F5C28F).map (fun c => decide (F64.pow2 (-1022) ≤ c * 100000)) = some true := by
+  decide +kernel
 
 end Eru.Props.C31
